@@ -1,5 +1,6 @@
 import Goat.Base.Prog
 import Goat.Gen.Consts
+import Goat.Gen.JwkMembers
 /-
 Model.JWK — goat's JWK codec and key validation (properties C08 and C09).
 
@@ -844,10 +845,19 @@ def encodeMaterial (m : Obj) (priv : GoPriv) (pub : GoPub) : PO Obj :=
   | .none, .x448 p => encodeX .x448 m Option.none p
   | _, _ => PO.fail "keytype"
 
-/-- `MarshalJSON` up to (not including) the final `json.Marshal`: the map that is serialised -/
-def marshal (k : Key) : PO Obj := do
+/-- `for _, name := range registeredMembers { delete(raw, name) }` (7805e88): the copy of `Raw` that
+    MarshalJSON starts from keeps the unregistered members only; the list is the regenerated
+    `Gen.JwkMembers.registeredMembers` -/
+def dropRegistered (raw : Obj) : Obj :=
+  raw.filter fun p => !(Gen.JwkMembers.registeredMembers.contains p.1)
+
+/-- MarshalJSON after the copy of `Raw` was made: common parameters, then the type switch -/
+def marshalFrom (k : Key) : PO Obj := do
   let m ← encodeCommon k.raw k
   encodeMaterial m k.priv k.pub
+
+/-- `MarshalJSON` up to (not including) the final `json.Marshal`: the map that is serialised -/
+def marshal (k : Key) : PO Obj := marshalFrom { k with raw := dropRegistered k.raw }
 
 def jsonMarshal (m : Obj) : PO Bytes := do
   match ← PO.query "json.marshal" [.obj m] with
